@@ -132,7 +132,7 @@ def model_state(path, node):
         if not part:
             continue
         name, _, val = part.partition(' = ')
-        if name in ('m', 'h'):
+        if name != 'last':
             out[name] = parse_value(val)
     return out
 
